@@ -179,6 +179,18 @@ CHECKS = {
         note="Positions inside messages are masked when two behaviours are compared (they move when text is re-printed). The "
              "optimiser only drops statements after a diverging one at function level; deeper rewrites do not exist yet.",
         design="5/C19"),
+    "C20": dict(
+        technique="TLA+ source semantics (HmsSem) fixes the behaviour of the original program; the real Transformer is run "
+                  "with several seeds and passes on every program of the stated class and every printed variant is "
+                  "re-analysed and replayed on both backends against that behaviour",
+        text="Programs of the class (syntactic filter over the spec-AST families plus programs and pure arithmetic trees written "
+             "for it: side-effect free operands wherever the transformer swaps or duplicates, integer multiplications with "
+             "literal operands 0..12, small literals) x 3 (thorough: 10) transformer seeds x 2 (3) passes: every variant must be "
+             "accepted by the analyzer and produce on VM and interpreter exactly the output and outcome HmsSem computes for the "
+             "original; a transformer panic is a violation.",
+        note="The repository's example programs are not used (membership in the class cannot be decided for them). Known "
+             "finding: variants that give a capturing function literal a local hit the VM's closure defect.",
+        design="5/C20"),
     "C09": dict(
         technique="TLA+ bytecode-machine spec (HmsVM: one rule per opcode, LimitOvershoot / LoopNeutral / "
                   "ReturnBalanced / NoUnderflow / HandlersLive) validated against recorded instruction traces "
